@@ -49,8 +49,24 @@ def h_budget(ctx, n, r0, dr, nswp, with_cache, prefill=0, with_e=False):
                      cache=(dict(pre) if with_cache else None))
     sizes = [len(B) for B in ref_orc.batches]
     orc.values = ref_orc.values
-    with stubs_installed(ctx, 'first'):
-        Y = teneva.cross(orc, Y0, m=m, nswp=nswp, dr_min=dr[0], dr_max=dr[1], info=info, cache=cache, **ekw)
+    import sys
+    cmod = sys.modules['teneva.cross']
+    real_eval = cmod._func_eval
+    served = []
+
+    def spy_eval(f, I, info_, cache_=None):
+        res = real_eval(f, I, info_, cache_)
+        if res is not None:
+            served.append(len(I))
+        return res
+    cmod._func_eval = spy_eval
+    try:
+        with stubs_installed(ctx, 'first'):
+            Y = teneva.cross(orc, Y0, m=m, nswp=nswp, dr_min=dr[0], dr_max=dr[1], info=info, cache=cache, **ekw)
+    finally:
+        cmod._func_eval = real_eval
+    # every index of a request that was answered is either evaluated or taken from the cache, and only those count
+    ctx.claim('counters_cover_answered_requests_only', info['m'] + info['m_cache'] == sum(served))
     ctx.claim('well_formed_same_shape', well_formed(Y, n))
     ctx.claim('finite', finite(ctx, Y))
     ctx.claim('batches_integer_width_d_in_bounds', _check_batches(ctx, orc, n))
@@ -193,6 +209,32 @@ def h_thresholds(ctx, n, r0, with_vld=False):
         ctx.claim('not_converged_before', ctx.gt(info['e'], e))
 
 
+def h_threshold_vld(ctx, n, r0):
+    """Symbolic validation threshold with symbolic validation values (oracle values
+    arbitrary): the reason 'e_vld' is reported only together with a validation
+    error of the RETURNED tensor that is at or below the threshold - also when the
+    initial approximation meets it before the first sweep (warm start)."""
+    from symtt.ref import multi_indices, ref_get
+    ev = ctx.real('ev')
+    ctx.assume(ctx.gt(ev, 0))
+    Iv = np.array(multi_indices(n)[:2])
+    yv = vec(ctx, 'yv', 2)
+    ctx.assume(ctx.gt(yv[0], 0))
+    orc = Oracle(ctx, fresh=True, n=n)
+    info = {}
+    with stubs_installed(ctx, 'first'):
+        Y = teneva.cross(orc, simple_Y0(n, r0), e_vld=ev, nswp=2, dr_min=0, dr_max=0, info=info, I_vld=Iv, y_vld=yv)
+    ctx.claim('well_formed_same_shape', well_formed(Y, n))
+    ctx.claim('documented_stop', info['stop'] in ('e_vld', 'nswp'))
+    d2 = sum(((ref_get(Y, tuple(i)) - yv[j]) ** 2 for j, i in enumerate(Iv)), 0)
+    ctx.claim('e_vld_is_error_of_returned_tensor', ctx.eq(info['e_vld'] * info['e_vld'] * sumsq(yv), d2))
+    if info['stop'] == 'e_vld':
+        ctx.claim('e_vld_only_below_threshold', ctx.le(info['e_vld'], ev))
+    else:
+        ctx.claim('nswp_exact', info['nswp'] == 2)
+        ctx.claim('not_met_before', ctx.gt(info['e_vld'], ev))
+
+
 class _OracleCalled(Exception):
     pass
 
@@ -299,6 +341,7 @@ def instances(tier):
         out.append({'func': 'h_callback', 'params': {'n': n, 'r0': r0, 'nswp': nswp}, 'opts': G})
     out.append({'func': 'h_thresholds', 'params': {'n': [2, 2], 'r0': 1}, 'opts': G})
     out.append({'func': 'h_thresholds', 'params': {'n': [2, 2], 'r0': 1, 'with_vld': True}, 'opts': G})
+    out.append({'func': 'h_threshold_vld', 'params': {'n': [2, 2], 'r0': 1}, 'opts': G})
     out.append({'func': 'h_func_none', 'params': {'n': [2, 2], 'r0': 1, 'nswp': 2, 'with_cache': True}, 'opts': G})
     out.append({'func': 'h_func_none', 'params': {'n': [2, 2, 2], 'r0': 1, 'nswp': 1, 'with_cache': True}, 'opts': G})
     # ranks still growing in the backward half-sweep when the run is cut (pending factor folded into the neighbour)
